@@ -273,7 +273,7 @@ def recursive_rules(repo):
                             verdict = violation("CSUM", fi, role,
                                                 "subtrahend X_csum[i, %s]: `%s` fails on path %s - with start == 0 the span sum must subtract nothing, "
                                                 "not X_csum[i, 0] or X_csum[i, -1]" % (unparse(sidx), label, fmt_trace(st.trace)), stmt,
-                                                witness={"assignment": {k: x for k, x in sorted(model.items()) if "start" in k or "flank" in k}})
+                                                semantic=True, witness={"assignment": {k: x for k, x in sorted(model.items()) if "start" in k or "flank" in k}})
                             break
                     if verdict:
                         break
